@@ -25,7 +25,10 @@ LineGood(e) ==
         THEN /\ e.requests = <<>>            \* rejected up front: nothing was asked of the service
              /\ e.names = <<>>
         ELSE /\ e.names = Requested(shape, e.prefix)
-             /\ {e.requests[i] : i \in DOMAIN e.requests} = {Requested(shape, e.prefix)[i] : i \in DOMAIN Requested(shape, e.prefix)}
+             \* (under a context that is already over -- mode "applyc" -- a lookup that cannot succeed need not be sent)
+             /\ LET asked == {e.requests[i] : i \in DOMAIN e.requests}
+                    due == {Requested(shape, e.prefix)[i] : i \in DOMAIN Requested(shape, e.prefix)}
+                IN  IF e.mode = "applyc" THEN asked \subseteq due /\ {n \in due : forms[n] # "missing"} \subseteq asked ELSE asked = due
              /\ e.outcome = Outcome(shape, forms, e.prefix)
              /\ e.err = (IF Failed(shape, forms, e.prefix) THEN "t" ELSE "f")
              /\ e.alias = "f"                \* changing a populated []byte field never alters what the store serves
